@@ -501,6 +501,11 @@ func (p *untypedParamBinder) setSliceFieldValue(target reflect.Value, defaultVal
 		sz = defVal.Len()
 		data = make([]string, sz)
 		for i := range data {
+			if f, isNumber := defVal.Index(i).Interface().(float64); isNumber {
+				// no exponent: integer items are parsed as integers
+				data[i] = strconv.FormatFloat(f, 'f', -1, 64)
+				continue
+			}
 			data[i] = fmt.Sprint(defVal.Index(i).Interface())
 		}
 	}
